@@ -1,7 +1,24 @@
-(* Model/Poly.v -- src/polynomial/{mod,arithmetic}.rs over any Arith.  A polynomial is its
-   coefficient vector (index = power).  Definitions only. *)
-From Coq Require Import List Arith Lia Bool.
-From OV Require Import Base.Panic Base.Arith gen.Params.
+(* Model/Poly.v -- src/polynomial/mod.rs (lines 1-140) and src/polynomial/arithmetic.rs over any
+   Arith.  A polynomial is its coefficient vector (index = power), exactly the private field
+   `coeffs: Vec<T>`.  Definitions only.
+
+   Review against the source (line numbers of /repo at e504d5d):
+     mod.rs 16-37    empty / new / quadratic / cubic          pempty pnew pquadratic pcubic
+     mod.rs 41-50    size / degree (Err on the empty one)     psize pdegree
+     mod.rs 60-70    eval: degree().unwrap(), Horner downward peval
+     mod.rs 74-82    is_zero: all coefficients == zero        is_zero     (true on the empty one)
+     mod.rs 86-95    trim: len-1 (usize underflow when empty) ptrim
+     mod.rs 109-120  derivative: degree().unwrap(); p[i] = 0 + a_{i+1} + ... (i+1 times)   pderiv
+     mod.rs 124-137  derivative_n / derivative_at             pderiv_n pderiv_at
+     arith  20-41    &p + &q   81-102 &p - &q   59-63 -&p     padd psub pneg
+     arith  120-138  &p * &q (convolution, i outer, j inner)  pmul
+     arith  156-160  &p * scalar  (x * times, in this order)  pscale
+     arith  166-187  polydiv (after the repair e504d5d)       polydiv
+     arith  194-206  Index / IndexMut with their range guard  pindex pindex_set
+   The consuming operator forms delegate to the by-reference forms (arith 10-12, 49-51, 71-73,
+   110-112, 146-148) and have no model of their own. *)
+From Coq Require Import List Arith Lia Bool ZArith.
+From OV Require Import Base.Panic Base.Arith Base.Flat gen.Params.
 Import ListNotations.
 Local Open Scope arith_scope.
 Local Open Scope bool_scope.
@@ -11,11 +28,17 @@ Context {A : Arith}.
 Notation T := (T A).
 Definition poly := list T.
 
+Definition pempty : poly := [].
+Definition pnew (c : list T) : poly := c.
+Definition pquadratic (a b c : T) : poly := [c; b; a].
+Definition pcubic (a b c d : T) : poly := [d; c; b; a].
+Definition psize (p : poly) : nat := length p.
+
 (* degree(): Err on the empty polynomial *)
 Definition pdegree (p : poly) : option nat :=
   match p with [] => None | _ => Some (length p - 1)%nat end.
 
-(* eval: degree().unwrap(); Horner from the top coefficient *)
+(* eval: degree().unwrap(); p = coeffs[degree]; for i in (0..degree).rev() { p = p*x + coeffs[i] } *)
 Definition peval (p : poly) (x : T) : res T :=
   match rev p with
   | [] => Panic Unwrap
@@ -81,14 +104,23 @@ Fixpoint pderiv_n (p : poly) (n : nat) : res poly :=
   match n with 0 => Ok p | S n' => let* d := pderiv p in pderiv_n d n' end.
 Definition pderiv_at (p : poly) (x : T) (n : nat) : res T :=
   let* d := pderiv_n p n in peval d x.
+(* the names of the source *)
+Definition derivative_n := pderiv_n.
+Definition derivative_at := pderiv_at.
+
+(* Index / IndexMut: if index >= len { panic!("Index out of bounds") }, then the Vec access *)
 Definition pindex (p : poly) (i : nat) : res T :=
   if length p <=? i then Panic Guard else rd p i.
+Definition pindex_set (p : poly) (i : nat) (x : T) : res poly :=
+  if length p <=? i then Panic Guard else upd p i x.
 
-(* polydiv *)
+(* polydiv (arithmetic.rs:166-187, after the repair e504d5d) *)
 Inductive pderr := EZeroDiv | EMaxIter.
 
-(* one pass of the loop body; [fixed] = repaired code (cancelled leading term set to zero) *)
-Definition polydiv_body (fixed : bool) (q r v : poly) : res (poly * poly) :=
+(* one pass of the loop body:
+     t = zeros(deg r - deg v + 1); t[deg r - deg v] = r[deg r] / v[deg v];
+     q = q + t;  r = r - t*v;  r[len-1] = 0;  r.trim();  q.trim()                       *)
+Definition polydiv_body (q r v : poly) : res (poly * poly) :=
   let dr := (length r - 1)%nat in let dv := (length v - 1)%nat in
   let* rl := rd r dr in
   let* vl := rd v dv in
@@ -96,27 +128,75 @@ Definition polydiv_body (fixed : bool) (q r v : poly) : res (poly * poly) :=
   let t := repeat zero (dr - dv) ++ [c] in
   let q := padd q t in
   let r := psub r (pmul t v) in
-  let* r := (if fixed then let* l := usub (length r) 1 in upd r l zero else Ok r) in
+  let* l := usub (length r) 1 in
+  let* r := upd r l zero in
   let* r := ptrim r in
   let* q := ptrim q in
   Ok (q, r).
 
-Fixpoint polydiv_loop (fixed : bool) (fuel count : nat) (q r v : poly) : res (poly * poly + pderr) :=
+(* while !r.is_zero() && deg r >= deg v { body; count += 1; if count > MAX { return Err } }
+   fuel = MAX + 1 passes: the (MAX+1)-th pass is the one that returns the error, so the fuel never
+   runs out before the code's own cap is hit; running out is reported as the code's error value. *)
+Fixpoint polydiv_loop (fuel count : nat) (q r v : poly) : res (poly * poly + pderr) :=
   if is_zero r || (length r <? length v) then Ok (inl (q, r)) else
   match fuel with
   | 0 => Ok (inr EMaxIter)
   | S fuel' =>
-      let* qr := polydiv_body fixed q r v in
+      let* qr := polydiv_body q r v in
       let count := S count in
       if POLYDIV_MAX <? count then Ok (inr EMaxIter)
-      else polydiv_loop fixed fuel' count (fst qr) (snd qr) v
+      else polydiv_loop fuel' count (fst qr) (snd qr) v
   end.
 
-Definition polydiv_gen (fixed : bool) (u v : poly) : res (poly * poly + pderr) :=
+Definition polydiv (u v : poly) : res (poly * poly + pderr) :=
   if (length v =? 0) then Ok (inr EZeroDiv) else
   if is_zero v then Ok (inr EZeroDiv) else
-  polydiv_loop fixed (S POLYDIV_MAX) 0 [] u v.
-Definition polydiv := polydiv_gen true.
-Definition polydiv_legacy := polydiv_gen false.
+  polydiv_loop (S POLYDIV_MAX) 0 [] u v.
 
 End Poly.
+
+(* ---- what the executor kinds poly.* (harness/src/k_poly.rs) print, as functions of the model:
+   the correspondence check evaluates these with vm_compute and compares token by token. ---- *)
+Section Run.
+Context {A : Arith} (F : A -> list Z).
+
+Definition fl_poly (p : list A) : list Z := fl_list F p.
+Definition fl_deg (p : list A) : list Z :=
+  match pdegree p with Some d => fl_Z (Z.of_nat d) | None => fl_Z (-1) end.
+
+(* poly.ring p q x s *)
+Definition run_ring (p q : list A) (x s : A) : list Z :=
+  let rs := [padd p q; psub p q; pmul p q; pneg p; pscale p s; padd q p; psub q p; pmul q p] in
+  concat (map (fun r => fl_poly r ++ fl_deg r) rs)
+  ++ concat (map (fun r => fl_res F (peval r x)) (p :: q :: rs)).
+
+(* poly.calc p q x s nmax *)
+Definition run_calc (p q : list A) (x s : A) (nmax : nat) : list Z :=
+  concat (map (fun n => fl_res fl_poly (pderiv_n p n) ++ fl_res F (pderiv_at p x n)) (seq 0 (S nmax)))
+  ++ fl_res fl_poly (pderiv (padd p q))
+  ++ fl_res fl_poly (let* dp := pderiv p in let* dq := pderiv q in Ok (padd dp dq))
+  ++ fl_res fl_poly (pderiv (pmul p q))
+  ++ fl_res fl_poly (let* dp := pderiv p in let* dq := pderiv q in Ok (padd (pmul dp q) (pmul p dq)))
+  ++ fl_res fl_poly (pderiv (pscale p s))
+  ++ fl_res fl_poly (let* dp := pderiv p in Ok (pscale dp s)).
+
+(* poly.access p i x *)
+Definition run_access (p : list A) (i : nat) (x : A) : list Z :=
+  fl_nat (psize p) ++ fl_deg p ++ fl_bool (is_zero p)
+  ++ fl_res F (pindex p i) ++ fl_res fl_poly (pindex_set p i x) ++ fl_res fl_poly (ptrim p).
+
+(* poly.ctor a b c d *)
+Definition run_ctor (a b c d : A) : list Z :=
+  fl_poly (pquadratic a b c) ++ fl_poly (pcubic a b c d) ++ fl_poly pempty ++ fl_deg (@pempty A).
+
+(* poly.div u v : 0 q r | 1 (zero divisor) | 2 (maximum iterations) | panic *)
+Definition fl_divres (r : res (list A * list A + pderr)) : list Z :=
+  match r with
+  | Panic k => fl_panic k
+  | Ok (inr EZeroDiv) => fl_Z 1
+  | Ok (inr EMaxIter) => fl_Z 2
+  | Ok (inl (q, r)) => fl_Z 0 ++ fl_poly q ++ fl_poly r
+  end.
+Definition run_div (u v : list A) : list Z := fl_divres (polydiv u v).
+
+End Run.
